@@ -108,7 +108,7 @@ impl Drv {
 }
 
 fn fin<T>(sim: &Sim, ctx: &Ctx, r: Result<T, Failure>) -> Result<T, Failure> {
-	if ctx.replay && r.is_err() {
+	if ctx.replay && (r.is_err() || std::env::var("C08_DUMP").is_ok()) {
 		println!("==== history ====\n{}", dump_history(sim));
 	}
 	r
@@ -469,6 +469,497 @@ fn s2_inner(c: &S2, ctx: &mut Ctx, d: &mut Drv) -> CaseResult {
 	Ok(())
 }
 
+// ---------------------------------------------------------------------------------------------------
+// on-chain phases shared by S3 / S4
+// ---------------------------------------------------------------------------------------------------
+
+#[derive(Clone, Debug, Serialize, Deserialize)]
+struct Delays {
+	/// blocks until a broadcast commitment confirms (1..=MAX_BLOCKS_FOR_CONF), counted from the trigger height
+	d_commit: u8,
+	/// blocks until the HTLC output is resolved once a spend is minable (0..=MAX_BLOCKS_FOR_CONF)
+	d_htlc: u8,
+	/// the node crosses its trigger height inside a burst of 1 + cross_burst blocks (cross_burst < d_commit)
+	cross_burst: u8,
+}
+
+fn delays_strategy() -> impl Strategy<Value = Delays> + Clone {
+	(prop_oneof![2 => Just(MAX_BLOCKS_FOR_CONF as u8), 1 => Just(1u8), 3 => 1u8..=MAX_BLOCKS_FOR_CONF as u8], prop_oneof![2 => Just(MAX_BLOCKS_FOR_CONF as u8), 1 => Just(0u8), 3 => 0u8..=MAX_BLOCKS_FOR_CONF as u8], prop_oneof![3 => Just(0u8), 1 => 0u8..5])
+		.prop_map(|(d_commit, d_htlc, cb)| Delays { d_commit, d_htlc, cross_burst: cb.min(d_commit - 1) })
+}
+
+impl Drv {
+	/// one block according to the confirmation plan, then everybody reacts
+	fn step_block(&mut self, plan: &ConfPlan, hash: &lightning::types::payment::PaymentHash) {
+		let txs = next_block_txs(&self.sim, plan, hash);
+		let nodes = self.chain_nodes.clone();
+		self.sim.mine_for(txs, &nodes);
+		self.pump();
+	}
+}
+
+// ---------------------------------------------------------------------------------------------------
+// S3: dead, slow or last-moment downstream peer
+// ---------------------------------------------------------------------------------------------------
+
+#[derive(Clone, Copy, Debug, Serialize, Deserialize, PartialEq, Eq)]
+enum CMode {
+	/// C never answers. stage: how far the B-C commitment dance got before C fell silent (0: C never saw the
+	/// update_add_htlc; 1: C's revoke_and_ack / commitment_signed never arrive; 2: complete, C holds the payment)
+	Silent { disconnect: bool, stage: u8 },
+	/// C (not following the chain meanwhile) fulfils when B's height is outgoing expiry + at
+	LateFulfill { at: i8 },
+	/// C fails the HTLC when B's height is outgoing expiry + at
+	LateFail { at: i8 },
+	/// B-C disconnected; C knows the preimage and follows the chain again from B's height = outgoing expiry +
+	/// wake; its on-chain claim competes with B's timeout and is preferred by the miner iff c_wins
+	OnChain { wake: i8, c_wins: bool },
+}
+
+#[derive(Clone, Debug, Serialize, Deserialize)]
+struct S3 {
+	env: Env,
+	/// final CLTV delta = MIN_FINAL_CLTV_EXPIRY_DELTA + fd_extra
+	fd_extra: u8,
+	mode: CMode,
+	delays: Delays,
+	pre: Arrive,
+}
+
+fn cmode_strategy() -> impl Strategy<Value = CMode> + Clone {
+	prop_oneof![
+		3 => (any::<bool>(), 0u8..=2).prop_map(|(disconnect, stage)| CMode::Silent { disconnect, stage }),
+		2 => (-3i8..=3).prop_map(|at| CMode::LateFulfill { at }),
+		2 => (-3i8..=3).prop_map(|at| CMode::LateFail { at }),
+		3 => (prop_oneof![-3i8..=4, 4i8..30], any::<bool>()).prop_map(|(wake, c_wins)| CMode::OnChain { wake, c_wins }),
+	]
+}
+
+fn s3_strategy() -> impl Strategy<Value = S3> + Clone {
+	(env_strategy(), prop_oneof![Just(0u8), 0u8..12], cmode_strategy(), delays_strategy(), arrive_strategy()).prop_map(|(env, fd_extra, mode, delays, pre)| S3 { env, fd_extra, mode, delays, pre })
+}
+
+fn s3_oracle(c: &S3, ctx: &mut Ctx) -> CaseResult {
+	constants_consistent().map_err(|e| Failure::new("constants", e))?;
+	let spec = timing_world(Topology::Line3, c.env.ctype, c.env.cltv_delta, c.env.fee_base_msat, c.env.fee_ppm, &c.env.styles);
+	let mut d = Drv::new(spec.build(false));
+	let r = s3_inner(c, ctx, &mut d);
+	fin(&d.sim, ctx, r)
+}
+
+fn s3_inner(c: &S3, ctx: &mut Ctx, d: &mut Drv) -> CaseResult {
+	let (a, b, cn) = (0usize, 1usize, 2usize);
+	let grace = LATENCY_GRACE_PERIOD_BLOCKS;
+	let fd = MIN_FINAL_CLTV_EXPIRY_DELTA as u32 + c.fd_extra as u32;
+	let p = d.sim.send_custom(a, &[0, 1], c.env.amt_msat, fd, 0, 0).ok_or_else(|| Failure::new("harness", "no route"))?;
+	vensure!(d.sim.pays[p].state != PayState::Refused, "harness", "send refused");
+	let hash = d.sim.pays[p].hash;
+	let stage = match c.mode {
+		CMode::Silent { stage, .. } => stage,
+		_ => 2,
+	};
+	match stage {
+		0 => d.blocked = vec![(b, cn), (cn, b)],
+		1 => d.blocked = vec![(cn, b)],
+		_ => {},
+	}
+	d.pump();
+	let t = Timeline::build(&d.sim);
+	let in_exp = t.add_of(a, b, &hash).ok_or_else(|| Failure::new("harness", "no incoming add"))?.cltv;
+	let out_add = t.add_of(b, cn, &hash).ok_or_else(|| Failure::new("acceptable-forward-rejected", "a forward with the advertised delta and the minimum final delta was not relayed"))?.clone();
+	let out_exp = out_add.cltv;
+	vensure!(in_exp >= out_exp + c.env.cltv_delta as u32, "harness", "expiries");
+	if stage == 2 {
+		vensure!(t.claimable(cn, &hash).is_some(), "acceptable-htlc-rejected", "final hop refused a payment with the minimum final CLTV delta");
+	}
+	// what C does
+	let mut action_at: Option<i64> = None;
+	match c.mode {
+		CMode::Silent { disconnect, .. } => {
+			if disconnect {
+				d.sim.disconnect(b, cn);
+			} else {
+				d.blocked = vec![(b, cn), (cn, b)];
+			}
+		},
+		CMode::LateFulfill { at } | CMode::LateFail { at } => {
+			d.chain_nodes = vec![a, b];
+			action_at = Some(out_exp as i64 + at as i64);
+		},
+		CMode::OnChain { wake, .. } => {
+			d.sim.disconnect(b, cn);
+			d.chain_nodes = vec![a, b];
+			d.sim.claim(p);
+			action_at = Some(out_exp as i64 + wake as i64);
+		},
+	}
+	let trigger = out_exp + grace; // outbound HTLC: on chain LATENCY_GRACE_PERIOD_BLOCKS after expiry
+	let htlc_sat = out_add.amt_msat / 1000;
+	let prefer = match c.mode {
+		CMode::OnChain { c_wins: true, .. } => Some(cn),
+		_ => Some(b),
+	};
+	let mut plan = ConfPlan { d_commit: c.delays.d_commit as u32, d_htlc: c.delays.d_htlc as u32, prefer, htlc_sat };
+	// quiet phase up to a few blocks before anything is due
+	let h_now = d.sim.height_of(b);
+	d.advance(out_exp - 4 - h_now, c.pre);
+	d.pump();
+	vensure!(no_broadcasts(&d.sim), "closed-while-peer-merely-slow", "something went on chain {} blocks before the outgoing HTLC expires", 4);
+	let end = in_exp + grace + 2;
+	let mut acted = action_at.is_none();
+	let mut crossed = false;
+	while d.sim.chain.height() < end {
+		let hb = d.sim.height_of(b);
+		if !crossed && hb + 1 == trigger && c.delays.cross_burst > 0 && d.sim.chain.mempool.is_empty() && acted_or_later(acted, action_at, trigger + c.delays.cross_burst as u32) {
+			crossed = true;
+			let nodes = d.chain_nodes.clone();
+			d.sim.mine_burst_for(1 + c.delays.cross_burst as u32, &nodes);
+			d.pump();
+			// the commitment's confirmation deadline counts from the trigger height, not from when B noticed
+			plan.d_commit = (c.delays.d_commit - c.delays.cross_burst) as u32;
+			ctx.label("s3:trigger-crossed-in-burst");
+		} else {
+			d.step_block(&plan, &hash);
+		}
+		if !acted && d.sim.height_of(b) as i64 >= action_at.unwrap() {
+			acted = true;
+			match c.mode {
+				CMode::LateFulfill { .. } => d.sim.claim(p),
+				CMode::LateFail { .. } => d.sim.fail_back(p),
+				CMode::OnChain { .. } => {
+					d.chain_nodes = vec![a, b, cn];
+					d.sim.catch_up(cn, false);
+				},
+				_ => {},
+			}
+			d.pump();
+		}
+	}
+	// ------------------------------------------------------------------ oracles
+	let t = Timeline::build(&d.sim);
+	let view = chain_view(&d.sim, htlc_sat, &hash);
+	let b_commit = t.first_commit_broadcast(&d.sim, b, 1);
+	let fulfilled_offchain = t.fulfills.iter().any(|m| m.from == cn && m.to == b && m.hash == Some(hash)) && t.fulfill_of(b, a, &hash).is_some() && b_commit.map(|x| x.0).unwrap_or(u32::MAX) > t.fulfills.iter().find(|m| m.from == cn && m.to == b).unwrap().h_from;
+	let failed_offchain = matches!(c.mode, CMode::LateFail { at } if (out_exp as i64 + at as i64) < trigger as i64);
+	// (c) the holder commitment goes on chain within the grace period after the outgoing HTLC expired, not before
+	// (the first moment B can act on height `trigger` is the first time it processes events at a height >= trigger:
+	// `trigger` itself, or the end of the burst in which it crossed that height)
+	let act_height = if crossed { trigger + c.delays.cross_burst as u32 } else { trigger };
+	if let Some((h, _, _)) = b_commit {
+		vensure!(h >= trigger, "onchain-too-early", "B broadcast its commitment at height {} but the outgoing HTLC expires at {} (+{} grace)", h, out_exp, grace);
+		vensure!(h <= act_height, "onchain-too-late", "B broadcast its commitment only at height {}, the outgoing HTLC expired at {}, the grace period ended at {} and B could act at {}", h, out_exp, trigger, act_height);
+		vensure!(!(matches!(c.mode, CMode::LateFulfill { at } | CMode::LateFail { at } if (out_exp as i64 + at as i64) < trigger as i64)), "closed-while-peer-merely-slow", "B went on chain although C resolved the HTLC at height {} < {}", action_at.unwrap(), trigger);
+	} else {
+		let c_commit_first = view.commit_confirmed.get(&1).map(|x| x.1 <= trigger).unwrap_or(false);
+		vensure!(fulfilled_offchain || failed_offchain || c_commit_first, "onchain-too-late", "outgoing HTLC expired at {} and was never resolved, yet B did not go on chain by {}", out_exp, trigger);
+	}
+	// downstream outcome
+	let onchain_preimage = view.htlc_spend.get(&1).map(|x| x.3).unwrap_or(false);
+	let downstream_fulfilled = fulfilled_offchain || onchain_preimage;
+	// (d) never "paid downstream, not paid upstream"; the upstream channel survives
+	if downstream_fulfilled {
+		ctx.label(if onchain_preimage { "s3:downstream-claimed-on-chain" } else { "s3:downstream-fulfilled-late" });
+		vensure!(t.sent(a, &hash) && !t.failed(a, &hash), "lost-upstream-htlc", "C was paid (on chain: {}) but B did not claim the incoming HTLC (expiry {}) from A", onchain_preimage, in_exp);
+	} else {
+		ctx.label(if failed_offchain { "s3:downstream-failed-late" } else { "s3:downstream-timed-out" });
+		vensure!(t.failed(a, &hash) && !t.sent(a, &hash), "upstream-not-failed", "the outgoing HTLC timed out / failed but A never saw the payment fail (incoming expiry {}, height now {})", in_exp, d.sim.height_of(a));
+	}
+	for n in [a, b] {
+		vensure!(t.closed(&d.sim, n, 0).is_none() && d.sim.chan_open_at(n, 0), "upstream-channel-lost", "channel A-B closed at node {}: {:?}", n, t.closed(&d.sim, n, 0));
+	}
+	vensure!(view.commit_broadcast.get(&0).is_none(), "upstream-channel-lost", "a commitment of channel A-B was broadcast");
+	// (e) a timeout is passed upstream only once buried by ANTI_REORG_DELAY, and before A would act (in_exp + grace)
+	if !downstream_fulfilled && !failed_offchain {
+		let f = t.fail_of(b, a, &hash).ok_or_else(|| Failure::new("upstream-not-failed", "no update_fail_htlc B->A"))?;
+		let (_, conf_h) = *view.commit_confirmed.get(&1).ok_or_else(|| Failure::new("harness", "no commitment confirmed"))?;
+		let buried_from = match (view.htlc_outpoint.get(&1), view.htlc_spend.get(&1)) {
+			(Some(_), Some((_, sh, _, _))) => *sh,
+			(Some(_), None) => return Err(Failure::new("htlc-output-unresolved", format!("the HTLC output of the confirmed commitment was never spent although the HTLC expired at {}", out_exp))),
+			// the HTLC never made it into the confirmed commitment: the commitment itself resolves it
+			(None, _) => {
+				ctx.label("s3:htlc-not-in-confirmed-commitment");
+				conf_h
+			},
+		};
+		vensure!(f.h_from + 1 >= buried_from + ANTI_REORG_DELAY, "failed-upstream-before-buried", "B failed the incoming HTLC at height {} but the downstream timeout confirmed at {} (needs {} confirmations)", f.h_from, buried_from, ANTI_REORG_DELAY);
+		vensure!(f.h_from < in_exp + grace, "failed-upstream-too-late", "B failed the incoming HTLC (expiry {}) only at height {}", in_exp, f.h_from);
+		ctx.label_if(f.h_from + grace >= in_exp, "s3:upstream-fail-within-grace-of-expiry");
+		ctx.label_if(c.delays.d_commit as u32 + c.delays.d_htlc as u32 >= 2 * MAX_BLOCKS_FOR_CONF - 2, "s3:max-confirmation-delays");
+	}
+	ctx.label(match c.mode {
+		CMode::Silent { stage: 2, .. } => "s3:silent",
+		CMode::Silent { .. } => "s3:silent-awaiting-commitment",
+		CMode::LateFulfill { .. } => "s3:late-fulfill",
+		CMode::LateFail { .. } => "s3:late-fail",
+		CMode::OnChain { .. } => "s3:on-chain-race",
+	});
+	ctx.label_if(b_commit.is_some(), "s3:B-went-on-chain");
+	ctx.nontrivial_if(b_commit.is_some() || matches!(c.mode, CMode::LateFulfill { .. } | CMode::LateFail { .. }));
+	ctx.summary(json!({"scenario": "S3", "mode": format!("{:?}", c.mode), "delays": format!("{:?}", c.delays), "delta": c.env.cltv_delta, "type": format!("{:?}", c.env.ctype), "b_commit_height_minus_out_expiry": b_commit.map(|x| x.0 as i64 - out_exp as i64)}));
+	Ok(())
+}
+
+fn acted_or_later(acted: bool, action_at: Option<i64>, after_burst: u32) -> bool {
+	// do not let a burst jump over the scheduled action of C
+	acted || action_at.map(|x| x > after_burst as i64).unwrap_or(true)
+}
+
+// ---------------------------------------------------------------------------------------------------
+// S4: receiver holding a preimage, upstream peer dead or slow
+// ---------------------------------------------------------------------------------------------------
+
+#[derive(Clone, Copy, Debug, Serialize, Deserialize, PartialEq, Eq)]
+enum Dead {
+	/// the connection drops before claim_funds
+	Disconnected,
+	/// update_fulfill_htlc / commitment_signed never reach the payer
+	NothingDelivered,
+	/// the payer receives the fulfil but its answers never arrive
+	NoAnswer,
+}
+
+#[derive(Clone, Debug, Serialize, Deserialize)]
+struct S4 {
+	env: Env,
+	fd_extra: u8,
+	dead: Dead,
+	/// the payer comes back when the receiver's height is (expiry - CLTV_CLAIM_BUFFER) + back; None = never
+	back: Option<i8>,
+	delays: Delays,
+	pre: Arrive,
+}
+
+fn s4_strategy() -> impl Strategy<Value = S4> + Clone {
+	(
+		env_strategy(),
+		prop_oneof![Just(0u8), 0u8..20],
+		prop_oneof![Just(Dead::Disconnected), Just(Dead::NothingDelivered), Just(Dead::NoAnswer)],
+		prop_oneof![2 => Just(None), 3 => (-3i8..=2).prop_map(Some)],
+		delays_strategy(),
+		arrive_strategy(),
+	)
+		.prop_map(|(env, fd_extra, dead, back, delays, pre)| S4 { env, fd_extra, dead, back, delays, pre })
+}
+
+fn s4_oracle(c: &S4, ctx: &mut Ctx) -> CaseResult {
+	constants_consistent().map_err(|e| Failure::new("constants", e))?;
+	let spec = timing_world(Topology::Pair, c.env.ctype, c.env.cltv_delta, c.env.fee_base_msat, c.env.fee_ppm, &c.env.styles);
+	let mut d = Drv::new(spec.build(false));
+	let r = s4_inner(c, ctx, &mut d);
+	fin(&d.sim, ctx, r)
+}
+
+fn s4_inner(c: &S4, ctx: &mut Ctx, d: &mut Drv) -> CaseResult {
+	let (a, b) = (0usize, 1usize);
+	let fd = MIN_FINAL_CLTV_EXPIRY_DELTA as u32 + c.fd_extra as u32;
+	let p = d.sim.send_custom(a, &[0], c.env.amt_msat, fd, 0, 0).ok_or_else(|| Failure::new("harness", "no route"))?;
+	vensure!(d.sim.pays[p].state != PayState::Refused, "harness", "send refused");
+	let hash = d.sim.pays[p].hash;
+	d.pump();
+	let t = Timeline::build(&d.sim);
+	let add = t.add_of(a, b, &hash).ok_or_else(|| Failure::new("harness", "no add"))?.clone();
+	let expiry = add.cltv;
+	vensure!(t.claimable(b, &hash).is_some(), "acceptable-htlc-rejected", "receiver refused a payment with the minimum final CLTV delta");
+	match c.dead {
+		Dead::Disconnected => d.sim.disconnect(a, b),
+		Dead::NothingDelivered => d.blocked = vec![(b, a), (a, b)],
+		Dead::NoAnswer => d.blocked = vec![(a, b)],
+	}
+	d.sim.claim(p);
+	d.pump();
+	// inbound HTLC with a known preimage: on chain once expiry - height <= CLTV_CLAIM_BUFFER
+	let trigger = expiry - CLTV_CLAIM_BUFFER;
+	let back_at = c.back.map(|x| trigger as i64 + x as i64);
+	let htlc_sat = add.amt_msat / 1000;
+	let mut plan = ConfPlan { d_commit: c.delays.d_commit as u32, d_htlc: c.delays.d_htlc as u32, prefer: Some(b), htlc_sat };
+	let h_now = d.sim.height_of(b);
+	d.advance(trigger - 4 - h_now, c.pre);
+	d.pump();
+	vensure!(no_broadcasts(&d.sim), "closed-while-peer-merely-slow", "the receiver went on chain at height {} although expiry {} - CLTV_CLAIM_BUFFER {} = {}", d.sim.height_of(b), expiry, CLTV_CLAIM_BUFFER, trigger);
+	let end = expiry + LATENCY_GRACE_PERIOD_BLOCKS + 2;
+	let mut returned = back_at.is_none();
+	let mut crossed = false;
+	while d.sim.chain.height() < end {
+		let hb = d.sim.height_of(b);
+		if !crossed && hb + 1 == trigger && c.delays.cross_burst > 0 && acted_or_later(returned, back_at, trigger + c.delays.cross_burst as u32) {
+			crossed = true;
+			let nodes = d.chain_nodes.clone();
+			d.sim.mine_burst_for(1 + c.delays.cross_burst as u32, &nodes);
+			d.pump();
+			plan.d_commit = (c.delays.d_commit - c.delays.cross_burst) as u32;
+			ctx.label("s4:trigger-crossed-in-burst");
+		} else {
+			d.step_block(&plan, &hash);
+		}
+		if !returned && d.sim.height_of(b) as i64 >= back_at.unwrap() {
+			returned = true;
+			d.blocked.clear();
+			if c.dead == Dead::Disconnected {
+				d.sim.reconnect(a, b);
+			}
+			d.pump();
+		}
+	}
+	let t = Timeline::build(&d.sim);
+	let view = chain_view(&d.sim, htlc_sat, &hash);
+	let b_commit = t.first_commit_broadcast(&d.sim, b, 0);
+	let in_time = matches!(c.back, Some(x) if x < 0);
+	let act_height = if crossed { trigger + c.delays.cross_burst as u32 } else { trigger };
+	vensure!(t.claimed(b, &hash), "claim-before-deadline-failed", "claim_funds long before claim_deadline but no PaymentClaimed");
+	if in_time {
+		// merely slow: the payer answered before the trigger height; nothing may go on chain
+		ctx.label("s4:payer-back-in-time");
+		vensure!(b_commit.is_none() && no_broadcasts(&d.sim), "closed-while-peer-merely-slow", "the payer answered at height {} < {} but the channel went on chain", back_at.unwrap(), trigger);
+		vensure!(d.sim.chan_open_at(a, 0) && d.sim.chan_open_at(b, 0), "closed-while-peer-merely-slow", "channel closed");
+		vensure!(t.sent(a, &hash) && !t.failed(a, &hash), "claim-before-deadline-failed", "payer did not get PaymentSent");
+	} else {
+		ctx.label(if c.back.is_some() { "s4:payer-back-too-late" } else { "s4:payer-dead" });
+		// (c) inbound + preimage: first broadcast no later than expiry - CLTV_CLAIM_BUFFER, and not before
+		let (h, _, _) = b_commit.ok_or_else(|| Failure::new("onchain-too-late", format!("receiver knows the preimage, HTLC expires at {}, but it never went on chain (trigger {})", expiry, trigger)))?;
+		vensure!(h >= trigger, "onchain-too-early", "receiver broadcast at height {} < expiry {} - CLTV_CLAIM_BUFFER {}", h, expiry, CLTV_CLAIM_BUFFER);
+		vensure!(h <= act_height, "onchain-too-late", "receiver broadcast only at height {}; expiry {} - CLTV_CLAIM_BUFFER {} = {} (could act at {})", h, expiry, CLTV_CLAIM_BUFFER, trigger, act_height);
+		// with both confirmations inside MAX_BLOCKS_FOR_CONF the preimage claim confirms before the payer can time out
+		let (ctxid, conf_h) = *view.commit_confirmed.get(&0).ok_or_else(|| Failure::new("harness", "no commitment confirmed"))?;
+		if view.htlc_outpoint.get(&0).is_none() {
+			// the payer's commitment without the HTLC confirmed (it had received the fulfil): the receiver's balance
+			// on it must already include the HTLC
+			ctx.label("s4:settled-in-payers-commitment");
+			let want = (d.sim.chans[0].push_msat + add.amt_msat) / 1000;
+			let tx = &d.sim.chain.confirmed[&ctxid].0;
+			vensure!(tx.output.iter().any(|o| o.value.to_sat() == want), "lost-inbound-htlc", "confirmed commitment {} (height {}) has neither the HTLC output nor an output of {} sat for the receiver", ctxid, conf_h, want);
+			vensure!(conf_h <= expiry, "lost-inbound-htlc", "commitment confirmed at {} > expiry {}", conf_h, expiry);
+		} else {
+			let spend = view.htlc_spend.get(&0).ok_or_else(|| Failure::new("htlc-output-unresolved", format!("no spend of the HTLC output confirmed by height {}", d.sim.chain.height())))?;
+			vensure!(spend.3, "lost-inbound-htlc", "the HTLC output was spent without the preimage (tx {} at height {})", spend.0, spend.1);
+			vensure!(spend.1 <= expiry, "lost-inbound-htlc", "preimage claim confirmed at {} > expiry {}", spend.1, expiry);
+			ctx.label_if(spend.1 == expiry, "s4:claim-confirmed-in-last-block");
+		}
+		vensure!(t.sent(a, &hash) && !t.failed(a, &hash), "payer-outcome", "payer did not learn the preimage");
+	}
+	ctx.nontrivial_if(b_commit.is_some() || in_time);
+	ctx.summary(json!({"scenario": "S4", "dead": format!("{:?}", c.dead), "back": c.back, "delays": format!("{:?}", c.delays), "type": format!("{:?}", c.env.ctype), "broadcast_height_minus_trigger": b_commit.map(|x| x.0 as i64 - trigger as i64)}));
+	Ok(())
+}
+
+// ---------------------------------------------------------------------------------------------------
+// S5: HTLC held back (holding cell) while its expiry nears
+// ---------------------------------------------------------------------------------------------------
+
+#[derive(Clone, Copy, Debug, Serialize, Deserialize, PartialEq, Eq)]
+enum Hold {
+	/// the forwarder waits for a revoke_and_ack of the downstream peer
+	AwaitingRaa,
+	/// a ChannelMonitor update of the downstream channel is still being persisted
+	MonitorUpdate,
+}
+
+#[derive(Clone, Debug, Serialize, Deserialize)]
+struct S5 {
+	env: Env,
+	fd_extra: u8,
+	hold: Hold,
+	/// the blockage ends when the forwarder's height is (outgoing expiry - LATENCY_GRACE_PERIOD_BLOCKS) + release
+	release: Option<i8>,
+	pre: Arrive,
+}
+
+fn s5_strategy() -> impl Strategy<Value = S5> + Clone {
+	(env_strategy(), prop_oneof![Just(0u8), 0u8..10], prop_oneof![Just(Hold::AwaitingRaa), Just(Hold::MonitorUpdate)], prop_oneof![1 => Just(None), 4 => (-3i8..=3).prop_map(Some)], arrive_strategy())
+		.prop_map(|(env, fd_extra, hold, release, pre)| S5 { env, fd_extra, hold, release, pre })
+}
+
+fn s5_oracle(c: &S5, ctx: &mut Ctx) -> CaseResult {
+	constants_consistent().map_err(|e| Failure::new("constants", e))?;
+	let spec = timing_world(Topology::Line3, c.env.ctype, c.env.cltv_delta, c.env.fee_base_msat, c.env.fee_ppm, &c.env.styles);
+	let mut d = Drv::new(spec.build(false));
+	let r = s5_inner(c, ctx, &mut d);
+	fin(&d.sim, ctx, r)
+}
+
+fn s5_inner(c: &S5, ctx: &mut Ctx, d: &mut Drv) -> CaseResult {
+	let (a, b, cn) = (0usize, 1usize, 2usize);
+	let grace = LATENCY_GRACE_PERIOD_BLOCKS;
+	let fd = MIN_FINAL_CLTV_EXPIRY_DELTA as u32 + c.fd_extra as u32;
+	let chan1 = d.sim.chans[1].id;
+	// make the downstream channel busy with an unrelated, long-dated payment B -> C
+	match c.hold {
+		Hold::AwaitingRaa => d.blocked = vec![(cn, b)],
+		Hold::MonitorUpdate => d.sim.w.set_async(b, Some(chan1), true),
+	}
+	let p0 = d.sim.send_custom(b, &[1], 3_000_333, fd + 300, 0, 0).ok_or_else(|| Failure::new("harness", "no route"))?;
+	vensure!(d.sim.pays[p0].state != PayState::Refused, "harness", "send refused");
+	d.pump();
+	let h0 = d.sim.height_of(a);
+	let p = d.sim.send_custom(a, &[0, 1], c.env.amt_msat, fd, 0, 0).ok_or_else(|| Failure::new("harness", "no route"))?;
+	vensure!(d.sim.pays[p].state != PayState::Refused, "harness", "send refused");
+	let hash = d.sim.pays[p].hash;
+	d.pump();
+	let t = Timeline::build(&d.sim);
+	let in_exp = t.add_of(a, b, &hash).ok_or_else(|| Failure::new("harness", "no add"))?.cltv;
+	let out_exp = h0 + 1 + fd;
+	if t.add_of(b, cn, &hash).is_some() || t.fail_of(b, a, &hash).is_some() {
+		ctx.label("s5:not-held");
+		ctx.discard();
+		return Ok(());
+	}
+	// a held-back HTLC is given up once out_exp <= height + LATENCY_GRACE_PERIOD_BLOCKS ("our counterparty should
+	// almost certainly just fail it for expiring ~now")
+	let limit = out_exp - grace;
+	let release_at = c.release.map(|r| limit as i64 + r as i64);
+	let h_now = d.sim.height_of(b);
+	d.advance(limit - 4 - h_now, c.pre);
+	d.pump();
+	let t = Timeline::build(&d.sim);
+	vensure!(t.fail_of(b, a, &hash).is_none(), "held-htlc-failed-early", "held HTLC failed back at height {} although its outgoing expiry is {}", d.sim.height_of(b), out_exp);
+	let mut released = release_at.is_none();
+	let end = limit + 5;
+	while d.sim.chain.height() < end {
+		let nodes = d.chain_nodes.clone();
+		d.sim.mine_for(vec![], &nodes);
+		d.pump();
+		if !released && d.sim.height_of(b) as i64 >= release_at.unwrap() {
+			released = true;
+			match c.hold {
+				Hold::AwaitingRaa => d.blocked.clear(),
+				Hold::MonitorUpdate => {
+					d.sim.complete_all_updates(b);
+					d.sim.w.set_async(b, Some(chan1), false);
+				},
+			}
+			d.pump();
+		}
+	}
+	let t = Timeline::build(&d.sim);
+	let fwd = t.add_of(b, cn, &hash);
+	let failed = t.fail_of(b, a, &hash);
+	// (a) never offered downstream inside the buffer
+	if let Some(m) = fwd {
+		vensure!(out_exp > m.h_from + grace, "forwarded-inside-buffer", "held HTLC released to the downstream peer at height {} with expiry {} (within LATENCY_GRACE_PERIOD_BLOCKS {})", m.h_from, out_exp, grace);
+		vensure!(m.cltv == out_exp, "forwarded-wrong-expiry", "outgoing expiry {} != {}", m.cltv, out_exp);
+		ctx.label("s5:released-in-time");
+	}
+	let in_time = matches!(release_at, Some(r) if r < limit as i64);
+	if in_time {
+		vensure!(fwd.is_some(), "held-htlc-not-forwarded", "blockage ended at height {} < {} but the HTLC was not forwarded", release_at.unwrap(), limit);
+	} else {
+		// instead an upstream failure, as soon as the limit height is reached
+		let f = failed.ok_or_else(|| Failure::new("held-htlc-not-failed", format!("held HTLC (outgoing expiry {}) neither forwarded nor failed back by height {}", out_exp, d.sim.height_of(b))))?;
+		vensure!(f.h_from >= limit, "held-htlc-failed-early", "failed at {} < {}", f.h_from, limit);
+		vensure!(f.h_from == limit, "held-htlc-not-failed", "held HTLC failed back only at height {}; limit was {}", f.h_from, limit);
+		vensure!(fwd.is_none(), "forwarded-inside-buffer", "held HTLC both failed back and forwarded");
+		vensure!(t.failed(a, &hash), "payer-outcome", "payer did not see the failure");
+		ctx.label("s5:timed-out-in-holding-cell");
+	}
+	vensure!(d.sim.chan_open_at(a, 0) && d.sim.chan_open_at(b, 0) && d.sim.chan_open_at(b, 1) && no_broadcasts(&d.sim), "channel-closed-needlessly", "a held HTLC cost a channel (incoming expiry {})", in_exp);
+	ctx.label(match c.hold {
+		Hold::AwaitingRaa => "s5:hold:awaiting-raa",
+		Hold::MonitorUpdate => "s5:hold:monitor-update",
+	});
+	ctx.nontrivial_if(c.release.map(|r| r.abs() <= 2).unwrap_or(true));
+	ctx.summary(json!({"scenario": "S5", "hold": format!("{:?}", c.hold), "release": c.release, "type": format!("{:?}", c.env.ctype)}));
+	Ok(())
+}
+
 fn main() {
 	install_recording_signer();
 	let mut c = Check::new("C08", "exploration");
@@ -485,6 +976,21 @@ fn main() {
 		PartSpec { name: "s2-forward-admission", rule: "wip", quick_cases: 500, thorough_cases: 12_000, max_shrink: 300 },
 		s2_strategy,
 		s2_oracle,
+	);
+	c.part_with(
+		PartSpec { name: "s3-dead-downstream", rule: "wip", quick_cases: 300, thorough_cases: 12_000, max_shrink: 200 },
+		s3_strategy,
+		s3_oracle,
+	);
+	c.part_with(
+		PartSpec { name: "s4-preimage-dead-upstream", rule: "wip", quick_cases: 300, thorough_cases: 12_000, max_shrink: 200 },
+		s4_strategy,
+		s4_oracle,
+	);
+	c.part_with(
+		PartSpec { name: "s5-holding-cell", rule: "wip", quick_cases: 300, thorough_cases: 12_000, max_shrink: 200 },
+		s5_strategy,
+		s5_oracle,
 	);
 	if thorough {
 		c.enumerate("s1-boundary-cross-product", "wip", s1_enumeration(), true, s1_oracle);
